@@ -19,6 +19,7 @@ import Snmp.Model.Trap
 import Snmp.Model.Disco
 import Snmp.Model.Conc
 import Snmp.Model.Ber
+import Snmp.Model.Glue
 import Snmp.Model.Emit
 import Snmp.Model.Usm
 open Lean Snmp
@@ -559,6 +560,25 @@ def berOp (op : String) (j : Json) : Except String Json := do
     match dec (← bytesOfJson (← j.getObjVal? "data")) (← getNat j "fuel") (← getNat j "depth") with
     | .ok t => pure (treeToJson t)
     | .error e => pure (berErrToJson e)
+  | "ber.msg.recv" =>
+    -- bytes -> what `V2CMPM.decode(...).value` hands to the operation: glue, wrapper checks, error check
+    let comm ← bytesOfJson (← j.getObjVal? "community")
+    match Glue.msgOfBytes (← bytesOfJson (← j.getObjVal? "data")) (← getNat j "fuel") (← getNat j "depth") with
+    | some (m, cls) =>
+      match (do let p ← Ops.mpmDecode (.v2c comm) m; Ops.forcePdu p : Except Err Ops.PduResp) with
+      | .ok p =>
+        pure (Json.mkObj [("cls", toJson cls), ("rid", toJson p.requestId), ("es", toJson p.errorStatus),
+          ("ei", toJson p.errorIndex), ("vbs", toJson (p.varbinds.map vbToJson))])
+      | .error _ => pure Json.null
+    | none => pure Json.null
+  | "ber.msg.read" =>
+    -- bytes -> the record the operation logic works on (decodeTree + unpacking glue)
+    match Glue.msgOfBytes (← bytesOfJson (← j.getObjVal? "data")) (← getNat j "fuel") (← getNat j "depth") with
+    | some (m, cls) =>
+      pure (Json.mkObj [("version", toJson m.version), ("community", toJson (toHex m.community)), ("cls", toJson cls),
+        ("rid", toJson m.pdu.requestId), ("es", toJson m.pdu.errorStatus), ("ei", toJson m.pdu.errorIndex),
+        ("vbs", toJson (m.pdu.varbinds.map vbToJson))])
+    | none => pure Json.null
   | "ber.pdu.enc" =>
     pure (optBytesJ (Ber.encodePdu (← j.getObjValAs? String "cls") (← getInt j "rid") (← getInt j "a") (← getInt j "b")
       (← vbsOfJson (← j.getObjVal? "vbs"))))
